@@ -44,8 +44,8 @@ impl Server {
         }
     }
 
-    /// Send one protocol message (UDP: a datagram; TCP: framed unless `raw`).
-    async fn send(&mut self, msg: &[u8], raw: bool) {
+    /// Send one protocol message (UDP: a datagram; TCP: the bytes on the stream).
+    async fn send(&mut self, msg: &[u8]) {
         match self {
             Server::Udp { sock, client } => {
                 if let Some(c) = client {
@@ -54,13 +54,7 @@ impl Server {
             }
             Server::Tcp { wr, .. } => {
                 if let Some(w) = wr {
-                    if raw {
-                        let _ = w.write_all(msg).await;
-                    } else {
-                        let mut f = (msg.len() as u16).to_be_bytes().to_vec();
-                        f.extend_from_slice(msg);
-                        let _ = w.write_all(&f).await;
-                    }
+                    let _ = w.write_all(msg).await;
                 }
             }
         }
@@ -97,14 +91,18 @@ impl Ep {
                 if let Ok((stream, _)) = l.accept().await {
                     let (mut rd, wr) = stream.into_split();
                     let _ = wtx.send(wr);
+                    // RFC 5766: messages are delimited by their own length field (STUN: 20 + length; ChannelData:
+                    // 4 + length, padded to a multiple of four)
                     loop {
-                        let mut h = [0u8; 2];
+                        let mut h = [0u8; 4];
                         if rd.read_exact(&mut h).await.is_err() {
                             break;
                         }
-                        let n = u16::from_be_bytes(h) as usize;
+                        let length = u16::from_be_bytes([h[2], h[3]]) as usize;
+                        let n = if (0x40..0x80).contains(&h[0]) { 4 + ((length + 3) & !3) } else { 20 + length };
                         let mut b = vec![0u8; n];
-                        if rd.read_exact(&mut b).await.is_err() {
+                        b[..4].copy_from_slice(&h);
+                        if rd.read_exact(&mut b[4..]).await.is_err() {
                             break;
                         }
                         if tx.send(b).is_err() {
@@ -160,7 +158,7 @@ impl Ep {
     async fn finish_allocate(&mut self, budget: Duration) -> bool {
         if let Some(txid) = self.pending_txid.take() {
             let ok = with_txid(templates::stun("stun.alloc_ok"), &txid);
-            self.server.send(&ok, false).await;
+            self.server.send(&ok).await;
         }
         let Ep { task, server, ice, .. } = self;
         let mut todo: Vec<[u8; 12]> = Vec::new();
@@ -189,7 +187,7 @@ impl Ep {
             }
             for txid in todo.drain(..) {
                 let ok = with_txid(templates::stun("stun.alloc_ok"), &txid);
-                server.send(&ok, false).await;
+                server.send(&ok).await;
             }
         }
     }
@@ -216,32 +214,24 @@ impl Ep {
 
     /// The genuine message of `tpl` as this session's server would send it now.
     pub fn genuine(&self, tpl: &str) -> Option<Vec<u8>> {
-        let base = tpl.strip_prefix("tcp.").unwrap_or(tpl);
-        let mut inner = match base {
-            "channeldata" | "turn.channeldata" => templates::channeldata(0x4000, &super::ice::check_for(&self.ice)),
-            "stun_data_ind" | "stun.data_ind" => data_indication(&super::ice::check_for(&self.ice)),
-            "stun_binding_req" => super::ice::check_for(&self.ice),
+        let mut m = match tpl {
+            "turn.channeldata" => templates::channeldata(0x4000, &super::ice::check_for(&self.ice)),
+            "stun.data_ind" => data_indication(&super::ice::check_for(&self.ice)),
+            "stun.binding_req" => super::ice::check_for(&self.ice),
             other => templates::genuine(other)?,
         };
         if let Some(txid) = &self.pending_txid {
-            if base.starts_with("stun") {
-                inner = with_txid(inner, txid);
+            if tpl.starts_with("stun") {
+                m = with_txid(m, txid);
             }
         }
-        if tpl.starts_with("tcp.") {
-            let mut f = (inner.len() as u16).to_be_bytes().to_vec();
-            f.extend_from_slice(&inner);
-            Some(f)
-        } else {
-            Some(inner)
-        }
+        Some(m)
     }
 
     /// Deliver `input` and run the endpoint until it has been handled.
     pub async fn feed(&mut self, input: &[u8]) -> Feed {
         let tcp = self.tcp;
-        // template bytes of the tcp.* templates already carry their frame header
-        self.server.send(input, tcp).await;
+        self.server.send(input).await;
         match self.phase {
             "pre" => {
                 // the mutated bytes were the reply to Allocate; a genuine server then answers whatever is asked
@@ -254,7 +244,7 @@ impl Ep {
             "est" => {
                 // sentinel: a relayed STUN binding request; the endpoint answers it through the relay
                 let sentinel = data_indication(&super::ice::check_for(&self.ice));
-                self.server.send(&sentinel, false).await;
+                self.server.send(&sentinel).await;
                 let Ep { task, server, .. } = self;
                 let mut answered = false;
                 pump(
